@@ -131,7 +131,7 @@ func (m *MmsTables) LevelCompact(level uint16, shid uint64) error {
 
 	taskGroups := m.buildCompactTaskGroup(plans, false, shid)
 	for _, group := range taskGroups {
-		m.scheduler.ExecuteTaskGroup(group, m.stopCompMerge)
+		m.scheduler.ExecuteTaskGroup(group, m.stopCompMergeSignal())
 	}
 	return nil
 }
@@ -145,7 +145,7 @@ func (m *MmsTables) blockCompactStop(name string) {
 func (m *MmsTables) NewChunkIterators(group FilesInfo) *ChunkIterators {
 	compItrs := &ChunkIterators{
 		closed:        m.closed,
-		stopCompMerge: m.stopCompMerge,
+		stopCompMerge: m.stopCompMergeSignal(),
 		dropping:      group.dropping,
 		name:          group.name,
 		itrs:          make([]*ChunkIterator, 0, len(group.compIts)),
@@ -185,7 +185,7 @@ func (m *MmsTables) compact(itrs *ChunkIterators, files []TSSPFile, level uint16
 		select {
 		case <-m.closed:
 			return nil, ErrCompStopped
-		case <-m.stopCompMerge:
+		case <-m.stopCompMergeSignal():
 			return nil, ErrCompStopped
 		default:
 		}
@@ -424,14 +424,14 @@ func (m *MmsTables) FullCompact(shid uint64) error {
 	if preLevel := config.PreFullCompactLevel(); preLevel > 0 {
 		plans := m.buildFullCompactPlan(n, preLevel)
 		if len(plans) > 0 {
-			m.scheduler.ExecuteBatch(m.buildCompactTasks(plans, true, shid), m.stopCompMerge)
+			m.scheduler.ExecuteBatch(m.buildCompactTasks(plans, true, shid), m.stopCompMergeSignal())
 			return nil
 		}
 	}
 
 	plans := m.buildFullCompactPlan(n, 0)
 	if len(plans) > 0 {
-		m.scheduler.ExecuteBatch(m.buildCompactTasks(plans, true, shid), m.stopCompMerge)
+		m.scheduler.ExecuteBatch(m.buildCompactTasks(plans, true, shid), m.stopCompMergeSignal())
 	}
 
 	return nil
